@@ -1187,6 +1187,7 @@ class FnPE:
         if getattr(self, "dropped_defs", None) and any(isinstance(n, ast.Name) and n.id in self.dropped_defs for st in body for n in ast.walk(st)):
             raise Bail("a call of a local helper could not be written out")
         body = cleanup(body, self.generated, set(params_of(self.fn)), lambda n_: n_ in self.locals)
+        body = param_aliases(body, set(params_of(self.fn)))
         return body or [ast.copy_location(ast.Pass(), self.fn)]
 
     def stat(self, k):
@@ -2830,6 +2831,32 @@ class FnPE:
         return binds
 
 
+def param_aliases(body, params):
+    """`x = p` as a statement of the function's own block, p a parameter that is never re-bound, x bound nowhere else: x IS p - every
+    read of x is written as p and the statement dropped (a second name for an argument tells the rules nothing)"""
+    stores = {}
+    for n in ast.walk(ast.Module(body=list(body), type_ignores=[])):
+        if isinstance(n, ast.Name) and isinstance(n.ctx, (ast.Store, ast.Del)):
+            stores[n.id] = stores.get(n.id, 0) + 1
+        elif isinstance(n, (ast.Global, ast.Nonlocal)):
+            for g in n.names:
+                stores[g] = 99
+        elif isinstance(n, ast.arg):
+            stores[n.arg] = stores.get(n.arg, 0) + 1        # a parameter of a nested function / lambda shadows
+    ren = {}
+    keep = []
+    for s in body:
+        if isinstance(s, ast.Assign) and len(s.targets) == 1 and isinstance(s.targets[0], ast.Name) and isinstance(s.value, ast.Name):
+            x, p_ = s.targets[0].id, ren.get(s.value.id, s.value.id)
+            if p_ in params and stores.get(p_, 0) == 0 and stores.get(x, 0) == 1 and x not in params:
+                ren[x] = p_
+                continue
+        keep.append(s)
+    if not ren:
+        return body
+    return [subst(s, {x: ast.Name(id=p_, ctx=ast.Load()) for x, p_ in ren.items()}) for s in keep]
+
+
 def cleanup(body, generated, params, is_local=None):
     """copy propagation and dead-store removal restricted to the names this pass created:
        g = <name>   with g and <name> both bound exactly once in the function (or <name> a never re-bound parameter),
@@ -3033,10 +3060,176 @@ def terminates_all(stmts):
     return False
 
 
+class _DropFloat(ast.NodeTransformer):
+    """float(e) -> e (a conversion of type that keeps every number; float("nan") and the like stay); `x = float(x)` then reads
+    `x = x` and is dropped"""
+
+    def visit_Call(self, n):
+        self.generic_visit(n)
+        if isinstance(n.func, ast.Name) and n.func.id == "float" and len(n.args) == 1 and not n.keywords and not isinstance(n.args[0], (ast.Constant, ast.JoinedStr, ast.Starred)):
+            return n.args[0]
+        return n
+
+    def _block(self, stmts):
+        out = []
+        for s_ in stmts:
+            if isinstance(s_, ast.Assign) and len(s_.targets) == 1 and isinstance(s_.targets[0], ast.Name) and isinstance(s_.value, ast.Name) and s_.value.id == s_.targets[0].id:
+                continue
+            out.append(s_)
+        return out
+
+    def generic_visit(self, node):
+        super().generic_visit(node)
+        for f_ in ("body", "orelse", "finalbody"):
+            b = getattr(node, f_, None)
+            if isinstance(b, list) and b and isinstance(b[0], ast.stmt):
+                nb = self._block(b)
+                setattr(node, f_, nb or ([ast.copy_location(ast.Pass(), b[0])] if f_ == "body" else []))
+        return node
+
+
+class _Spelling(ast.NodeTransformer):
+    """spellings of one operation brought to the one the rules are written in: np.transpose(x) -> x.T (no axes given);
+    `v = e; return v` -> `return e` (outside try blocks); a module-level function that only hands its own parameters, in order, to
+    another function of the module with the same parameters gets that function's body"""
+
+    def __init__(self, tree):
+        self.np = {a.asname or a.name for s_ in tree.body if isinstance(s_, ast.Import) for a in s_.names if a.name == "numpy"}
+        self.in_try = 0
+
+    def visit_Call(self, n):
+        self.generic_visit(n)
+        if isinstance(n.func, ast.Attribute) and n.func.attr == "transpose" and isinstance(n.func.value, ast.Name) and n.func.value.id in self.np \
+                and len(n.args) == 1 and not n.keywords and not isinstance(n.args[0], ast.Starred):
+            return ast.copy_location(ast.Attribute(value=n.args[0], attr="T", ctx=ast.Load()), n)
+        return n
+
+    def visit_Compare(self, n):
+        self.generic_visit(n)
+        flip = {ast.Lt: ast.Gt, ast.Gt: ast.Lt, ast.LtE: ast.GtE, ast.GtE: ast.LtE}
+        if len(n.ops) == 1 and type(n.ops[0]) in flip and isinstance(n.left, ast.Constant) and isinstance(n.left.value, (int, float)) \
+                and not isinstance(n.comparators[0], ast.Constant):
+            return ast.copy_location(ast.Compare(left=n.comparators[0], ops=[flip[type(n.ops[0])]()], comparators=[n.left]), n)     # 0 > x  ->  x < 0
+        return n
+
+    def visit_Try(self, n):
+        self.in_try += 1
+        self.generic_visit(n)
+        self.in_try -= 1
+        return n
+
+    def _block(self, stmts):
+        if self.in_try or len(stmts) < 2:
+            return stmts
+        a, r = stmts[-2], stmts[-1]
+        if isinstance(r, ast.Return) and isinstance(r.value, ast.Name) and isinstance(a, ast.Assign) and len(a.targets) == 1 \
+                and isinstance(a.targets[0], ast.Name) and a.targets[0].id == r.value.id:
+            return stmts[:-2] + [ast.copy_location(ast.Return(value=a.value), a)]
+        return stmts
+
+    def generic_visit(self, node):
+        super().generic_visit(node)
+        for f_ in ("body", "orelse", "finalbody"):
+            b = getattr(node, f_, None)
+            if isinstance(b, list) and b and isinstance(b[0], ast.stmt):
+                setattr(node, f_, self._block(b))
+        return node
+
+
+def _append_loops(tree):
+    """x = []; for v in it: [if c:] x.append(e)   ->   x = [e for v in it if c]      when neither x nor v is used by it / c / e
+    resp. anywhere else in the function: the loop spelling of a comprehension"""
+    for fn in [n for n in ast.walk(tree) if isinstance(n, (ast.FunctionDef, ast.AsyncFunctionDef))]:
+        counts = {}
+        for x in ast.walk(fn):
+            if isinstance(x, ast.Name):
+                counts[x.id] = counts.get(x.id, 0) + 1
+
+        bound = {}          # name -> its occurrences inside the loops / comprehensions that bind it
+        for x in ast.walk(fn):
+            if isinstance(x, (ast.For, ast.ListComp, ast.SetComp, ast.GeneratorExp, ast.DictComp)):
+                tgs = [x.target] if isinstance(x, ast.For) else [g_.target for g_ in x.generators]
+                for v in {z.id for t_ in tgs for z in ast.walk(t_) if isinstance(z, ast.Name)}:
+                    bound[v] = bound.get(v, 0) + sum(1 for z in ast.walk(x) if isinstance(z, ast.Name) and z.id == v)
+
+        def block(stmts):
+            out = []
+            for s_ in stmts:
+                for f_ in ("body", "orelse", "finalbody"):
+                    b = getattr(s_, f_, None)
+                    if isinstance(b, list) and b and isinstance(b[0], ast.stmt) and not isinstance(s_, (ast.FunctionDef, ast.AsyncFunctionDef, ast.ClassDef)):
+                        setattr(s_, f_, block(b))
+                for h in getattr(s_, "handlers", None) or []:
+                    h.body = block(h.body)
+                prev = out[-1] if out else None
+                if isinstance(s_, ast.For) and not s_.orelse and len(s_.body) == 1 and isinstance(prev, ast.Assign) and len(prev.targets) == 1 \
+                        and isinstance(prev.targets[0], ast.Name) and isinstance(prev.value, ast.List) and not prev.value.elts:
+                    x = prev.targets[0].id
+                    inner, conds = s_.body[0], []
+                    while isinstance(inner, ast.If) and not inner.orelse and len(inner.body) == 1:
+                        conds.append(inner.test)
+                        inner = inner.body[0]
+                    tn = [z.id for z in ast.walk(s_.target) if isinstance(z, ast.Name)]
+                    if isinstance(inner, ast.Expr) and isinstance(inner.value, ast.Call) and isinstance(inner.value.func, ast.Attribute) and inner.value.func.attr == "append" \
+                            and isinstance(inner.value.func.value, ast.Name) and inner.value.func.value.id == x and len(inner.value.args) == 1 and not inner.value.keywords \
+                            and not isinstance(inner.value.args[0], ast.Starred) and all(isinstance(z, (ast.Name, ast.Tuple, ast.List)) for z in ast.walk(s_.target) if isinstance(z, ast.expr)):
+                        e = inner.value.args[0]
+                        inside = {}
+                        for z in ast.walk(s_):
+                            if isinstance(z, ast.Name):
+                                inside[z.id] = inside.get(z.id, 0) + 1
+                        uses_x = sum(1 for part in [e, s_.iter] + conds for z in ast.walk(part) if isinstance(z, ast.Name) and z.id == x)
+                        free = all(bound.get(v, 0) == counts.get(v, 0) for v in tn)
+                        nested = any(isinstance(z, (ast.Lambda, ast.Yield, ast.YieldFrom, ast.Await, ast.NamedExpr)) for z in ast.walk(s_))
+                        if not uses_x and free and tn and not nested:
+                            comp = ast.ListComp(elt=e, generators=[ast.comprehension(target=s_.target, iter=s_.iter, ifs=conds, is_async=0)])
+                            out[-1] = ast.copy_location(ast.Assign(targets=[prev.targets[0]], value=ast.copy_location(comp, s_)), prev)
+                            continue
+                out.append(s_)
+            return out
+        fn.body = block(fn.body)
+    return tree
+
+
+def _sans_doc(body):
+    if body and isinstance(body[0], ast.Expr) and isinstance(body[0].value, ast.Constant) and isinstance(body[0].value.value, str):
+        return body[:1], body[1:]
+    return [], body
+
+
+def _thin_wrappers(tree):
+    fns = {s_.name: s_ for s_ in tree.body if isinstance(s_, ast.FunctionDef)}
+    for f in list(fns.values()):
+        doc, body = _sans_doc(f.body)
+        if len(body) != 1 or not isinstance(body[0], ast.Return) or not isinstance(body[0].value, ast.Call) or f.decorator_list or f.args.vararg or f.args.kwarg:
+            continue
+        c = body[0].value
+        g = fns.get(c.func.id) if isinstance(c.func, ast.Name) else None
+        if g is None or g is f or g.decorator_list or g.args.vararg or g.args.kwarg:
+            continue
+        pos = [a.arg for a in f.args.posonlyargs + f.args.args]
+        kwo = [a.arg for a in f.args.kwonlyargs]
+        if pos != [a.arg for a in g.args.posonlyargs + g.args.args] or kwo != [a.arg for a in g.args.kwonlyargs]:
+            continue
+        if [a.id if isinstance(a, ast.Name) else None for a in c.args] != pos:
+            continue
+        if sorted((k.arg, k.value.id if isinstance(k.value, ast.Name) else None) for k in c.keywords) != sorted((k, k) for k in kwo):
+            continue
+        g_locals = {x.id for x in ast.walk(g) if isinstance(x, ast.Name) and isinstance(x.ctx, ast.Store)}
+        if f.name not in g_locals and any(isinstance(x, ast.Name) and x.id == f.name for x in ast.walk(g)):
+            continue            # the inner function calls the outer one: left as written
+        f.body = doc + copy.deepcopy(_sans_doc(g.body)[1])
+    return tree
+
+
 def desugar(trees):
     """normalise {modname: ast.Module} in place; returns the statistics"""
     if os.environ.get("VERIF_NODESUGAR"):
         return {}
+    for k_, t_ in trees.items():
+        if not any(isinstance(n_, (ast.FunctionDef, ast.ClassDef)) and n_.name == "float" for n_ in ast.walk(t_)):
+            trees[k_] = ast.fix_missing_locations(_DropFloat().visit(t_))
+        trees[k_] = ast.fix_missing_locations(_append_loops(_thin_wrappers(_Spelling(trees[k_]).visit(trees[k_]))))
     d = Desugar(trees)
     st = d.run()
     st["_desugarer"] = d
